@@ -40,10 +40,18 @@ CFG = {
             "random choice among tick / restart / proposal (right or wrong leader, stale..far-future view, each payload shape, "
             "justification commit or timeout of 4 shapes, corruptions) / commit vote (towards a quorum for the replica's own "
             "high vote or arbitrary) / timeout vote / new-view / propose; the generator reads the real replica's view and "
-            "certificates to aim at the boundaries. non-trivial = distinct op whose outcome class differs from the modal class",
+            "certificates to aim at the boundaries. Every other case uses a leader schedule other than round-robin over everybody "
+            "(eligible subset, rotation period 0/1/2/3/5, weighted; the real view_leader is tabulated for the model); half of the "
+            "cases start with 1-4 happy-path rounds that finalise blocks; 6% of the steps start a directed multi-message family "
+            "(quorum of votes for one view >= current from distinct signers; timer, then the leader's new-view and proposal for the "
+            "same view; a vote, a second signer's vote, the first signer's vote for a future view, the old vote again); follow-ups: "
+            "the commit certificate for the replica's own vote; new-views from the new / previous leader after a view jump by "
+            "proposal. non-trivial = distinct op whose outcome class differs from the modal class",
     "trusted": ["hand-written replica model", "symbolic signatures", "harness EngineInterface (in-memory store, immediate persistence)"],
     "assumptions": ["signatures unforgeable / hashes collision-free (DESIGN 4.1)", "spec/informal-spec transcription"],
     "explanation": "step theorems on the model + model/implementation agreement on outcome, ordered effects and snapshots; "
                    "S: monotonicity, view-change justification, stored/emitted certificates verify, persist-before-send, no "
-                   "equivocation, cache bounds evaluated on the real replica after every step",
+                   "equivocation, cache bounds, durable state well-formed at every write (DurableWf), emitted new-view = highest held "
+                   "certificate (commit on a tie), held timeout certificate below the current view (TqcBelow), current-view new-view "
+                   "processed only from the view's leader — evaluated on the real replica after every step",
 }
